@@ -4,6 +4,7 @@ package main
 
 import (
 	"fmt"
+	"strings"
 )
 
 // C07: whenever CreateAnswer succeeds the answer has one m-section per section
@@ -71,6 +72,23 @@ func c07Oracle(e *jEntry) (string, string) {
 	if j != len(ans) {
 		return "answer-has-extra-sections", shape()
 	}
+	// the port-0 clause, when every offered section is mirrored and the offer carries a
+	// well-formed group "BUNDLE mid mid ...": a section the answerer has a codec for is
+	// rejected (port 0) exactly when the offerer left it out of the BUNDLE group
+	if len(off) == len(ans) && e.RemoteGroup != nil && strings.HasPrefix(*e.RemoteGroup, "BUNDLE ") {
+		listed := map[string]bool{}
+		for _, m := range strings.Split(strings.TrimPrefix(*e.RemoteGroup, "BUNDLE "), " ") {
+			listed[m] = true
+		}
+		for i, r := range off {
+			switch {
+			case listed[r.Mid] && ans[i].Port0:
+				return "bundled-section-rejected", fmt.Sprintf("offered section %d (mid %s) is in the offerer's BUNDLE group but answered with port 0: %s", i, r.Mid, shape())
+			case !listed[r.Mid] && !ans[i].Port0:
+				return "unbundled-section-accepted", fmt.Sprintf("offered section %d (mid %s) is outside the offerer's BUNDLE group but answered with a port: %s", i, r.Mid, shape())
+			}
+		}
+	}
 	return "", ""
 }
 
@@ -98,6 +116,9 @@ func c07Run(c jCase) (V, Verdict) {
 				v = Fail(sig, fmt.Sprintf("peer %d call %d: %s", pi, k, what))
 			}
 		}
+	}
+	if sig, what := log.projFailure(); sig != "" && v.OK {
+		v = Fail(sig, what)
 	}
 	if v.OK {
 		v.NonTrivial = answers >= 1 && maxSecs >= 2
@@ -131,7 +152,7 @@ func c07GenOffer(r *Rand, hostile int) jCase {
 
 func c07Corpus() []jCase {
 	sec := func(k, m, d string) jSec { return jSec{Kind: k, Mid: m, Dir: d, Codec: true} }
-	return []jCase{
+	return append([]jCase{
 		// the design probe: audio mid 0, m=text mid 1, video mid 2 without direction => one section
 		{Peers: 1, Ops: []jOp{
 			{Op: "srd", Ty: "offer", Desc: &jDesc{Secs: []jSec{sec("audio", "0", "sendrecv"), sec("text", "1", "sendrecv"), sec("video", "2", "")}, Group: jStr("BUNDLE 0 1 2")}},
@@ -154,7 +175,18 @@ func c07Corpus() []jCase {
 			{Op: "add", Kind: "audio", Dir: "sendrecv"}, {Op: "add", Kind: "video", Dir: "recvonly"},
 			{Op: "srd", Ty: "offer", Desc: &jDesc{Secs: []jSec{sec("video", "v", "sendonly"), sec("application", "d", ""), sec("audio", "a", "sendrecv"), sec("video", "w", "inactive")}, Group: jStr("BUNDLE v d a")}},
 			{Op: "answer"}}},
-	}
+		// two unusable sections (m=text, video without direction) and one usable section outside
+		// the group: the answer is [v d a w] with w at port 0 (Coq: off_mixed)
+		{Peers: 1, Ops: []jOp{
+			{Op: "add", Kind: "audio", Dir: "sendrecv"}, {Op: "add", Kind: "video", Dir: "recvonly"},
+			{Op: "srd", Ty: "offer", Desc: &jDesc{Secs: []jSec{sec("video", "v", "sendonly"), sec("text", "t", "sendrecv"), sec("application", "d", ""),
+				sec("video", "n", ""), sec("audio", "a", "sendrecv"), {Kind: "video", Mid: "w", Dir: "inactive"}}, Group: jStr("BUNDLE v t d n a")}},
+			{Op: "answer"}}},
+		// an offer without a=group: every section is answered with port 0, no BUNDLE group
+		{Peers: 1, Ops: []jOp{
+			{Op: "srd", Ty: "offer", Desc: &jDesc{Secs: []jSec{sec("audio", "0", "sendrecv"), sec("video", "1", "sendrecv"), sec("application", "2", "")}}},
+			{Op: "answer"}, {Op: "sld", Ty: "answer"}, {Op: "offer"}}},
+	}, jCorpusOps()...)
 }
 
 func init() {
